@@ -311,6 +311,7 @@ func (x *Exec) checkEnsures(st *State, fr *Frame, results []Val) {
 	if fr.con == nil {
 		return
 	}
+	x.batchSeq++
 	for _, c := range fr.con.Ensures {
 		var unf []string
 		env := x.envFor(fr, st, results, "ensures")
@@ -324,6 +325,7 @@ func (x *Exec) checkEnsures(st *State, fr *Frame, results []Val) {
 			x.bail("ensures %s: %v", c.Label, err)
 		}
 		x.emit(st, c.Label, "ensures", t, unf, token.NoPos)
+		x.obls[len(x.obls)-1].Batch = x.batchSeq
 	}
 }
 
@@ -508,10 +510,14 @@ func (x *Exec) applyMods(st *State, pre *State, ms *modSet, full map[string]bool
 	if ms.all {
 		x.abstr["call with unknown effects"+ms.why] = true
 		st.taint = true
+		// unknown code may do anything, including what the ghost state stands for (OS calls, backend calls)
+		var hn []string
 		for name := range x.heapSort {
-			if !strings.HasPrefix(name, "ghost:") {
-				x.havocHeap(st, name)
-			}
+			hn = append(hn, name)
+		}
+		sort.Strings(hn)
+		for _, name := range hn {
+			x.havocHeap(st, name)
 		}
 	}
 	if ms.allocs || ms.all {
@@ -1313,8 +1319,19 @@ func (x *Exec) doTypeAssert(st *State, fr *Frame, n *ssa.TypeAssert) Val {
 	var ok, res string
 	var rv Val
 	if _, isIface := at.Underlying().(*types.Interface); isIface {
-		okSym := x.newSym(st, "implements", "Bool")
-		ok = and(not(fmt.Sprintf("(= (i_tag %s) 0)", v.Term)), okSym)
+		// whether a value implements the interface is a function of its dynamic type; for the dynamic types
+		// seen so far the method sets decide
+		impl := fmt.Sprintf("impl_%d", x.C.typeID(at))
+		x.C.decl(fmt.Sprintf("(declare-fun %s (Int) Bool)", impl))
+		if it, isI := at.Underlying().(*types.Interface); isI {
+			for i, t := range x.C.typeByID {
+				if _, dynIsIface := t.Underlying().(*types.Interface); dynIsIface {
+					continue
+				}
+				x.C.decl(fmt.Sprintf("(assert (= (%s %d) %v))", impl, i+1, types.Implements(t, it)))
+			}
+		}
+		ok = and(not(fmt.Sprintf("(= (i_tag %s) 0)", v.Term)), fmt.Sprintf("(%s (i_tag %s))", impl, v.Term))
 		// static knowledge: asserting to a super-interface always succeeds for non-nil values
 		if types.AssignableTo(n.X.Type(), at) {
 			ok = not(fmt.Sprintf("(= (i_tag %s) 0)", v.Term))
